@@ -16,10 +16,18 @@ ASSUMPTIONS = [
 ]
 
 
+# both negotiation functions identify contexts by id; "every proposed context appears exactly once on the requestor side" needs
+# the ids the requestor sends to be distinct: that is C12's numbering contract on AE.associate, re-proved under this id
+RELABEL = {"C12/": "C11/distinct-ids:"}
+RELABEL_ONLY = {"C12/": r"ApplicationEntity\.associate/|lemma/ids"}
+
+
 def tasks(tier):
     from contracts.acse_neg import RequestorSiteTask, RequestorSiteFamilyTask
     ts = [N.NegRequestorTask("C11/"), N.CompositionTask("C11/"), N.RoleTableTask("C11/"), N.TsInvariantTask("C11/"),
           RequestorSiteTask("C11/"), RequestorSiteFamilyTask("C11/")]
+    from contracts.C12 import AssociateIdsTask, IdsLemma
+    ts += [AssociateIdsTask(), IdsLemma()]
     # wire form of the result list and of the role items (subset of the C01 tasks)
     ts += [codec.PrimTask("A_ASSOCIATE/ac", (2, 1, ("MaximumLengthNotification", "ImplementationClassUIDNotification")), "C11/"),
            codec.PrimTask("A_ASSOCIATE/ac", (1, 1, ("MaximumLengthNotification", "ImplementationClassUIDNotification",
@@ -30,6 +38,8 @@ def tasks(tier):
 
 def replay(rec):
     from pyvc.replay import run_replay
+    if rec.get("id", "").startswith("C11/distinct-ids:"):
+        return run_replay("C12", dict(rec, id="C12/" + rec["id"][len("C11/distinct-ids:"):]))
     # the class-invariant obligation shared with C10 is replayed by C10's harness
     return run_replay("C10" if "add_transfer_syntax" in rec.get("id", "") else "C11", rec)
 
